@@ -29,8 +29,15 @@ func pqWorkload(e *Env, bounded bool, nops int, setup func(p *PQ, g *PQGen)) *PQ
 			e.Yield("op")
 		}
 	} else {
+		frng := e.Rng("pqfault")
 		for i := 0; i < nops && !e.Failed(); i++ {
-			p.Apply(g.Next())
+			op := g.Next()
+			if p.FaultRuns && (op.K == "flush" || op.K == "next") && frng.Intn(5) == 0 {
+				// one write error / short write inside this producer call: the call may
+				// fail, the queue must stay consistent and later calls succeed
+				p.Apply(Op{K: "faultarm", A: frng.Intn(2), B: frng.Intn(10)})
+			}
+			p.Apply(op)
 			e.Yield("op")
 		}
 	}
@@ -83,15 +90,17 @@ func pqProbes(e *Env, p *PQ) {
 }
 
 func init() {
-	probeNames["C05"] = []string{"event_ge3_pages", "event_multi_page", "event_fills_page_exactly", "header_does_not_fit_at_page_end", "event_1_byte", "event_skipped", "pq_reopen"}
+	probeNames["C05"] = []string{"event_ge3_pages", "event_multi_page", "event_fills_page_exactly", "header_does_not_fit_at_page_end", "event_1_byte", "event_skipped", "pq_reopen", "io_fault_in_producer_call"}
 	register(&PropDef{
 		ID: "C05", Level: "exploration", QuickSec: 50, ThoroSec: 900,
-		Rule: "each run = one seeded queue history (up to 400 operations: Write with arbitrary chunking incl. 1-byte chunks, Next, Flush, reader Begin/Next/Read(partial, exact, oversize buffers)/Done, ACK, queue+file reopen) with boundary-biased event sizes (1 byte; payload-4-d and payload-d for d in 0..6; k*payload-4-d; multi page) on page sizes 1024-4096 and write buffers from the minimum to 16 pages. Oracle: the i-th event delivered by the reader is the i-th appended event (exact size from Next, byte-identical concatenated Reads, Read returns 0 exactly at the end), nothing is delivered that was not completed, Next reports empty only if nothing certainly-flushed is undelivered; at the end Flush + drain must deliver every appended event. Non-trivial = run with at least one multi-page event and one event read in several pieces; distinct = op list + config + schedule hash.",
+		Rule: "each run = one seeded queue history (up to 400 operations: Write with arbitrary chunking incl. 1-byte chunks, Next, Flush, reader Begin/Next/Read(partial, exact, oversize buffers)/Done, ACK, queue+file reopen) with boundary-biased event sizes (1 byte; payload-4-d and payload-d for d in 0..6; k*payload-4-d; multi page) on page sizes 1024-4096 and write buffers from the minimum to 16 pages; in a fifth of the runs one write error or short write is armed for single Flush/Next calls (the call may fail, the events stay buffered and are delivered after a later flush). Oracle: the i-th event delivered by the reader is the i-th appended event (exact size from Next, byte-identical concatenated Reads, Read returns 0 exactly at the end), nothing is delivered that was not completed, Next reports empty only if nothing certainly-flushed is undelivered; at the end Flush + drain must deliver every appended event. Non-trivial = run with at least one multi-page event and one event read in several pieces; distinct = op list + config + schedule hash.",
 		Real: defaultReal, Stub: defaultStub, Assume: defaultAssume,
+		FaultKinds: []string{"write error inside Flush/Next (one call, a fifth of the runs)", "short write inside Flush/Next"},
 		Body: func(e *Env) {
 			rng := e.Rng("c05")
 			n := 60 + rng.Intn(340)
-			p := pqWorkload(e, false, n, nil)
+			faults := rng.Intn(5) == 0
+			p := pqWorkload(e, false, n, func(p *PQ, g *PQGen) { p.FaultRuns = faults })
 			pqFinish(e, p)
 			pqProbes(e, p)
 			p.Close()
@@ -99,17 +108,20 @@ func init() {
 			e.Res.Nontrivial = e.Res.Probes["event_multi_page"]+e.Res.Probes["event_ge3_pages"] > 0
 		},
 	})
-	probeNames["C17"] = []string{"counters_checked", "available_checked", "pq_reopen", "event_skipped"}
+	probeNames["C17"] = []string{"counters_checked", "available_checked", "pq_reopen", "event_skipped", "io_fault_in_producer_call"}
 	register(&PropDef{
 		ID: "C17", Level: "exploration", QuickSec: 50, ThoroSec: 900,
-		Rule: "each run = one seeded queue history as in C05 (producer, consumer, ACK, reopen); after EVERY operation the counter oracle runs: Flushed callback total F within [events flushed for sure, events completed] and == completed after a successful explicit Flush; ACKed callback total A == sum of successful ACK(n); Pending() == Active() == F - A; inside a reader transaction Available() == F - consumed; after queue+file reopen Pending == Active == persisted range and a new reader's Available equals it; the FIFO oracle of C05 ties the counters to what the reader can actually deliver. Non-trivial = run with at least one ACK and one reopen or partially ACKed page; distinct = op list + config + schedule hash.",
+		Rule: "each run = one seeded queue history as in C05 (producer, consumer, ACK, reopen; a third on small bounded files where flushes fail from out of space, a quarter with a write error or short write armed for single Flush/Next calls); after EVERY operation the counter oracle runs: Flushed callback total F within [events flushed for sure, events completed] and == completed after a successful explicit Flush; ACKed callback total A == sum of successful ACK(n); Pending() == Active() == F - A; inside a reader transaction Available() == F - consumed; after queue+file reopen Pending == Active == persisted range and a new reader's Available equals it; the FIFO oracle of C05 ties the counters to what the reader can actually deliver. Non-trivial = run with at least one ACK and one reopen or partially ACKed page; distinct = op list + config + schedule hash.",
 		Real: defaultReal, Stub: defaultStub, Assume: defaultAssume,
+		FaultKinds: []string{"write error inside Flush/Next (one call, a quarter of the runs)", "short write inside Flush/Next", "out of space (small bounded files)"},
 		Body: func(e *Env) {
 			rng := e.Rng("c17")
 			n := 40 + rng.Intn(260)
 			small := rng.Intn(3) == 0 // small bounded file: flushes fail when the file is full
+			faults := rng.Intn(4) == 0
 			p := pqWorkload(e, small, n, func(p *PQ, g *PQGen) {
 				p.CheckCounters = true
+				p.FaultRuns = faults
 				g.WAck, g.WReopen, g.WFlush = 14, 3, 10
 				if small {
 					g.WAck, g.WRead = 4, 20 // fill faster than it is drained
